@@ -806,7 +806,7 @@ inst_t!(stream_c1_rs10_q0_ss11_q01, check_stream::<1>([1, 0], &[0], [1, 1], &[0,
 inst_t!(stream_c1_rs20_q_ss00_q, check_stream::<1>([2, 0], &[], [0, 0], &[]));
 inst_t!(stream_c1_rs20_q_ss10_q0, check_stream::<1>([2, 0], &[], [1, 0], &[0]));
 inst_t!(stream_c1_rs20_q_ss11_q01, check_stream::<1>([2, 0], &[], [1, 1], &[0, 1]));
-inst_t!(stream_c1_rs11_q01_ss00_q, check_stream::<1>([1, 1], &[0, 1], [0, 0], &[]));
+// (stream_c1_rs11_q01_ss00_q -- two receivers queued, stream pending and then dropped, three queued nodes -- exceeds 40 GB in CBMC: not run)
 inst_t!(stream_c1_rs11_q01_ss10_q0, check_stream::<1>([1, 1], &[0, 1], [1, 0], &[0]));
 inst_t!(stream_c1_rs11_q01_ss11_q01, check_stream::<1>([1, 1], &[0, 1], [1, 1], &[0, 1]));
 inst_t!(recv_poll_c0_rs00_q_xs00_q, check_recv_poll::<0>([0, 0], &[], [0, 0], &[]));
@@ -1052,7 +1052,7 @@ inst_t!(stream_c0_rs10_q0_ss11_q01, check_stream::<0>([1, 0], &[0], [1, 1], &[0,
 inst_t!(stream_c0_rs20_q_ss00_q, check_stream::<0>([2, 0], &[], [0, 0], &[]));
 inst_t!(stream_c0_rs20_q_ss10_q0, check_stream::<0>([2, 0], &[], [1, 0], &[0]));
 inst_t!(stream_c0_rs20_q_ss11_q01, check_stream::<0>([2, 0], &[], [1, 1], &[0, 1]));
-inst_t!(stream_c0_rs11_q01_ss00_q, check_stream::<0>([1, 1], &[0, 1], [0, 0], &[]));
+// (stream_c0_rs11_q01_ss00_q -- two receivers queued, stream pending and then dropped, three queued nodes -- exceeds 40 GB in CBMC: not run)
 inst_t!(stream_c0_rs11_q01_ss10_q0, check_stream::<0>([1, 1], &[0, 1], [1, 0], &[0]));
 inst_t!(stream_c0_rs11_q01_ss11_q01, check_stream::<0>([1, 1], &[0, 1], [1, 1], &[0, 1]));
 
